@@ -390,7 +390,10 @@ func (c *Conn) HandshakeContext(ctx context.Context) error {
 // DTLS 1.3 is selected, the DTLS 1.3 FSM imports those packets into its
 // transcript.
 func (c *Conn) prepareHandshakeStart(ctx context.Context) (handshakeStart, error) {
-	if c.handshakeConfig.MaxVersion == protocol.Version1_2 {
+	// A restored state is always a DTLS 1.2 state: it is resumed as such also when the
+	// configuration would admit DTLS 1.3 for a new handshake.
+	if c.handshakeConfig.MaxVersion == protocol.Version1_2 ||
+		(c.handshakeConfig.ResumeState != nil && c.handshakeConfig.MinVersion == protocol.Version1_2) {
 		return c.prepareHandshakeStart12(), nil
 	}
 	if c.handshakeConfig.MinVersion == protocol.Version1_3 {
